@@ -132,7 +132,10 @@ impl Language for Scala {
             writeln!(w, " */")?;
         }
         if self.package.is_empty() {
-            panic!("package name must be provided")
+            return Err(std::io::Error::new(
+                std::io::ErrorKind::InvalidInput,
+                "a Scala package name must be provided (--scala-package or typeshare.toml)",
+            ));
         }
         match self.package.rsplit_once('.') {
             None => {}
